@@ -10,6 +10,7 @@ import (
 	"os"
 	"sort"
 	"sync"
+	"sync/atomic"
 	"time"
 	"unsafe"
 
@@ -822,7 +823,8 @@ func (as *AbacoSource) distributePackets(allpackets []*packets.Packet, now time.
 		cidx := gIndex(p)
 		grp := as.groups[cidx]
 		grp.enqueuePacket(p, now)
-		grp.updateFrameTiming(p, as.nextFrameNum)
+		// nextFrameNum is advanced by the block-assembly goroutine (distributeData), so read it atomically.
+		grp.updateFrameTiming(p, FrameIndex(atomic.LoadInt64((*int64)(&as.nextFrameNum))))
 	}
 }
 
@@ -1210,7 +1212,7 @@ func (as *AbacoSource) distributeData(buffersMsg AbacoBuffersType) *dataBlock {
 	}
 	wg.Wait()
 	block.nSamp = framesUsed
-	as.nextFrameNum += FrameIndex(framesUsed)
+	atomic.AddInt64((*int64)(&as.nextFrameNum), int64(framesUsed)) // read concurrently by distributePackets
 	if as.heartbeats != nil {
 		pmb := float64(buffersMsg.totalBytes) / 1e6
 		hwmb := float64(buffersMsg.totalBytes-buffersMsg.droppedBytes) / 1e6
